@@ -345,6 +345,11 @@ def replay_c03(cex):
     rs = np.random.default_rng(1)
     data = lo + (hi - lo) * rs.uniform(0.2, 0.8, size=(6, d))
     tr.fit(data)
+    # as in the harness: the affine part is fitted a second time (any fitted state)
+    mu = np.asarray(env_array(env, "mu", (d,)))
+    sg = np.asarray(env_array(env, "sg", (d,), default=1.0))
+    sg = np.where(sg > 0, sg, 1.0) * 3.0
+    tr._affine_transform.fit(np.stack([mu - sg, mu + sg]))
 
     class Net:
         d_ = d
